@@ -37,6 +37,10 @@
                          unchanged when its data blocks are re-wrapped at any token boundaries
                          (rewrap_rel m d: equal token streams under the file's delimiter d,
                          substitutions fire on no line, counts sniffed on either wrapping < m);
+                         NOTE (audit D5 d): "< m" (sniff_below) EXCLUDES the wrapping with all
+                         values of a depth step on one line of a file with m curves, which the
+                         quantifier names; C09_rewrap_read_le (block D5 below) has "<= m"
+                         (rewrap_rel_le) and covers it; more values on a line than curves stay out;
      C09_redelimit_space the tokens of a SPACE-delimited line are its white-space separated
                          fields: any amount of blanks/tabs between and around them gives the
                          same tokens (lines without quotes / ^Z on which the substitutions do
@@ -49,16 +53,38 @@
                          blocks (and any non-title lines before the first section): equal read;
      C09_compose, C09_compose_read   generic: a relation whose single steps preserve f preserves it
                          along every finite chain (steps in either direction); instantiated
-                         with the union of the generators above (pres_step).
+                         with pres_step = ps_ws (white space at line ends, CRLF, final newline)
+                         + ps_skip (blank / '#' lines) + ps_blocks (blocks their consumers cannot
+                         tell apart) -- NOT the union of all generators above (audit D5 c):
+                         re-wrapping and re-spacing / re-delimiting are not steps of pres_step;
+     C09_compose_read_ext  (block D5 at the end of the file) the composition theorem over the
+                         extended relation pres_step_ext o = pres_step + ps_rewrap (C09_rewrap_read_le)
+                         + ps_redelimit d / ps_respace (C09_redelimit_read: data bodies that are
+                         line by line alike under the file's delimiter d -- C09_lines_alike_data;
+                         for SPACE: plain lines with equal str.split() fields, C09_respace_line,
+                         i.e. C09_redelimit_space lifted from token lists to read);
+     C09_header_padding  blanks / tabs between the FIELDS of a header line: this is C04's statement
+                         (C04_parse_all holds under any padding6); the corollary here says two
+                         layouts of the same fields parse to the same item, and
+                         C09_header_padding_section turns it into the header premise of
+                         C09_blocks / ps_blocks (lines pairwise hline_alike => same items).
    Partial / not claimed:
-     - re-wrapping is proved on the domain named above; outside it (a wrapping on which a
-       run-on-hyphen / decimal-comma substitution fires, or whose physical lines all carry as
-       many values as there are curves or more) lasio's sniffing heuristics decide, and only
+     - re-wrapping is proved on the domain named above (C09_rewrap_read: sniffed count < m;
+       C09_rewrap_read_le: <= m, m <= number of curves); outside it (a wrapping on which a
+       run-on-hyphen / decimal-comma substitution fires, or with a physical line that carries
+       MORE values than there are curves) lasio's sniffing heuristics decide, and only
        the correspondence checks those.
+     - re-spacing of SPACE data is proved for plain lines (no quote characters, no ^Z, no '#'
+       inside the line, no substitution fires); TAB: C09_redelimit_read takes line_alike DTab
+       as a premise, no closed form of the TAB splitter is proved.
      - COMMA / TAB with padding blanks: the model identifies a numeric cell by its token text,
        so " 1" and "1" are different tokens although float() maps them to the same value; that
        equality is a fact about CPython's float (oracle fhex), exercised by the correspondence
-       only.  Changing DLM itself changes a header item, so it is outside "equal header items".
+       only (C09_redelimit_comma_unique: under COMMA the model's tokens determine the line).
+       Changing DLM itself changes a header item, so it is outside "equal header items".
+     - header inter-field spacing is covered through C04 on C04's domain (conformant fields,
+       sect_ok); lines outside it (no colon, name_with_dots in ~Curves, ...) only by the
+       correspondence.
      - ~Other: blank lines are content there; insertion is not claimed (skip_ins_block demands
        equal bodies for ~O blocks); white space at line ends is covered (the text is built from
        stripped lines). *)
@@ -464,3 +490,273 @@ Theorem C09_engine_array_current : forall (V F A : Type) (nops : num_ops V F) (n
 Proof. exact engine_array_pin. Qed.
 Print Assumptions C09_engine_items_current.
 Print Assumptions C09_engine_array_current.
+
+(* ==== BEGIN block (audit D5): extended family -- re-wrap (sniffed count <= curve count), re-space / re-delimit
+   lifted to read, header inter-field padding (C04), composition over the extended step relation ==== *)
+Require Import SplitWsFacts PresExt HeaderLineSpec HeaderPadding.
+Open Scope list_scope.
+Open Scope N_scope.
+
+(* ---- 7. re-wrapping with ALL values of a depth step on one line --------------------------------------
+   C09_rewrap_read needs the column count sniffed on either wrapping to be < m (sniff_below), which excludes the
+   wrapping "every depth step on one line" of a file with m curves (sniffed = m).  rewrap_rel_le asks for <= m only:
+   with WRAP declared the reshape width is the curve count as soon as the sniffed count does not exceed it
+   (C09_rewrap_width_le).  Still outside: physical lines that carry MORE values than there are curves (two depth
+   steps on one line): lasio then reshapes to the sniffed width. *)
+Theorem C09_rewrap_width_le : forall sn nc, sniff_le nc sn -> n_columns_of sn nc true = nc.
+Proof. exact n_columns_of_wrapped_le. Qed.
+
+Theorem C09_rewrap_le_weaken : forall m d b b', rewrap_block m d b b' -> rewrap_block_le m d b b'.
+Proof. exact rewrap_block_weaken. Qed.
+
+Theorem C09_rewrap_read_le : forall fhex fstr numeq o m d t t' pre pre' bs bs',
+  lines_keep t = pre ++ render bs -> lines_keep t' = pre' ++ render bs' ->
+  notitles pre -> notitles pre' -> Forall wf_block bs -> Forall wf_block bs' ->
+  Forall2 (rewrap_block_le m d) bs bs' ->
+  (forall ps, first_pass o (lines_keep t)
+                (mkps (VFloat (s2l "2.0")) (VStr (s2l "YES")) None (VStr (s2l "SPACE")) empty_las [] [])
+                (find_sections (lines_keep t)) = inl ps ->
+     dlm_of (p_dlm ps) = Some d /\
+     (hval_is_str (p_wrapped ps) (s2l "YES") = true /\ wrap_decl (p_las ps) = true /\
+      (m <= List.length (s_items (l_curves (p_las ps))))%nat)) ->
+  read fhex fstr numeq o t = read fhex fstr numeq o t'.
+Proof. exact read_rewrap_le. Qed.
+
+(* ---- 8. re-spacing / re-delimiting of data lines, lifted to read ---------------------------------------
+   line_alike d x y: the three data readers take the same from the two physical lines under delimiter d (skip flag,
+   hyphen flag and token count for the sniffer; tokens after EVERY list of substitutions for the normal engine; numpy
+   tokens).  data_alike d: the same for whole bodies.  data_equiv (all delimiters at once) is too strong here: the
+   blanks between SPACE-delimited fields are visible under COMMA. *)
+Theorem C09_lines_alike_data : forall d b b', Forall2 (line_alike d) b b' -> data_alike d b b'.
+Proof. exact lines_alike_data. Qed.
+
+Theorem C09_alike_of_equiv : forall d b b', data_equiv b b' -> data_alike d b b'.
+Proof. exact data_equiv_alike. Qed.
+
+Theorem C09_alike_of_streq : forall d x y, streq x y -> line_alike d x y.
+Proof. exact line_alike_streq. Qed.
+
+(* SPACE: plain lines (no ^Z, no quote characters, no '#', no read substitution fires) with the same str.split()
+   fields -- any blanks / tabs between and around the fields *)
+Theorem C09_respace_line : forall x y, plain_line x -> plain_line y -> split_ws x = split_ws y ->
+  line_alike DSpace x y.
+Proof. exact respace_line_alike. Qed.
+
+Theorem C09_respace_data : forall b b', respace_lines b b' -> data_alike DSpace b b'.
+Proof. exact respace_data. Qed.
+
+(* COMMA: the token texts determine the line (the model keeps " 2" and "2" apart, see the header), so two lines
+   with equal token lists are the same line: only white space at the line ends can differ (the C09_padding theorems) *)
+Theorem C09_redelimit_comma_unique : forall l l', split_line DComma l = split_line DComma l' -> l = l'.
+Proof. exact redelimit_comma_unique. Qed.
+
+(* the whole read: data blocks replaced by bodies alike under the file's delimiter d; header / ~Other blocks as
+   their consumers see them (rel_block) *)
+Theorem C09_redelimit_read : forall fhex fstr numeq o d t t' pre pre' bs bs',
+  lines_keep t = pre ++ render bs -> lines_keep t' = pre' ++ render bs' ->
+  notitles pre -> notitles pre' -> Forall wf_block bs -> Forall wf_block bs' ->
+  Forall2 (alike_block d) bs bs' ->
+  (forall ps, first_pass o (lines_keep t)
+                (mkps (VFloat (s2l "2.0")) (VStr (s2l "YES")) None (VStr (s2l "SPACE")) empty_las [] [])
+                (find_sections (lines_keep t)) = inl ps ->
+     dlm_of (p_dlm ps) = Some d /\ True) ->
+  read fhex fstr numeq o t = read fhex fstr numeq o t'.
+Proof. exact read_alike. Qed.
+
+Theorem C09_respace_block_alike : forall b b', respace_block b b' -> alike_block DSpace b b'.
+Proof. exact respace_block_alike. Qed.
+
+(* ---- 9. header lines: inter-field padding is C04's statement --------------------------------------------
+   C04_parse_all is padding-independent; hence two layouts of the same four fields parse to the same hline
+   (C09_header_padding), two header sections whose lines are pairwise hline_alike (equal after strip, or item lines
+   with the same parsed fields) parse to the same items (C09_header_padding_section = the THeader premise of
+   block_equiv / rel_block), and C09_blocks / ps_blocks compose it with the rest. *)
+Theorem C09_header_padding : forall (p0 p1 p2 p3 p4 p5 q0 q1 q2 q3 q4 q5 mn u v d : list N) (ic ip : bool),
+  padding6 p0 p1 p2 p3 p4 p5 = true -> padding6 q0 q1 q2 q3 q4 q5 = true ->
+  conf_mnem mn = true -> conf_unit u = true -> conf_text v = true -> conf_text d = true ->
+  value_set_off p2 v = true -> value_set_off q2 v = true ->
+  sect_ok ic ip (layout p0 mn p1 u p2 v p3 p4 d p5) u v p3 p4 d = true ->
+  sect_ok ic ip (layout q0 mn q1 u q2 v q3 q4 d q5) u v q3 q4 d = true ->
+  HeaderLine.read_header_line (layout p0 mn p1 u p2 v p3 p4 d p5) ic ip =
+  HeaderLine.read_header_line (layout q0 mn q1 u q2 v q3 q4 d q5) ic ip /\
+  HeaderLine.read_header_line (layout p0 mn p1 u p2 v p3 p4 d p5) ic ip = Some (HeaderLine.mkhl mn u v d).
+Proof. exact header_padding_line. Qed.
+
+Theorem C09_header_padding_section : forall t b b',
+  Forall2 (hline_alike (kind_of_title (strip t))) b b' ->
+  forall v c ig, parse_section v t c ig [ch_hash] b = parse_section v t c ig [ch_hash] b'.
+Proof. exact parse_section_hlines. Qed.
+
+Theorem C09_header_padding_alike : forall k x y (p1 p2 p3 p4 q1 q2 q3 q4 mn u v d : list N),
+  strip x = layout [] mn p1 u p2 v p3 p4 d [] -> strip y = layout [] mn q1 u q2 v q3 q4 d [] ->
+  padding6 [] p1 p2 p3 p4 [] = true -> padding6 [] q1 q2 q3 q4 [] = true ->
+  conf_mnem mn = true -> conf_unit u = true -> conf_text v = true -> conf_text d = true ->
+  value_set_off p2 v = true -> value_set_off q2 v = true ->
+  sect_ok (kc k) (kp k) (layout [] mn p1 u p2 v p3 p4 d []) u v p3 p4 d = true ->
+  sect_ok (kc k) (kp k) (layout [] mn q1 u q2 v q3 q4 d []) u v q3 q4 d = true ->
+  hd 0 mn <> ch_hash -> hd 0 mn <> ch_tilde ->
+  hline_alike k x y.
+Proof. exact header_padding_alike. Qed.
+
+(* ---- 10. composition over the extended family ----------------------------------------------------------
+   pres_step_ext o = pres_step (ps_base: ps_ws, ps_skip, ps_blocks) + ps_rewrap (domain rewrap_rel_le, file says
+   WRAP YES with >= m curves) + ps_redelimit d (data blocks alike under the file's delimiter d) + ps_respace (its
+   SPACE instance on plain lines).  The relation depends on the read options o because the file-level premises of
+   ps_rewrap / ps_redelimit speak about first_pass o.  C09_compose_read is kept; it is the ps_base fragment. *)
+Theorem C09_step_read_ext : forall fhex fstr numeq o t t',
+  pres_step_ext o t t' -> read fhex fstr numeq o t = read fhex fstr numeq o t'.
+Proof. exact pres_step_ext_read. Qed.
+
+Theorem C09_compose_read_ext : forall fhex fstr numeq o t t',
+  chain _ (pres_step_ext o) t t' -> read fhex fstr numeq o t = read fhex fstr numeq o t'.
+Proof. exact pres_chain_ext_read. Qed.
+
+Theorem C09_compose_read_ext_list : forall fhex fstr numeq o t mids t',
+  path _ (pres_step_ext o) t mids t' -> read fhex fstr numeq o t = read fhex fstr numeq o t'.
+Proof. exact pres_path_ext_read. Qed.
+
+(* ---- non-vacuity of the block --------------------------------------------------------------------------- *)
+(* three wrappings of the WRAP YES file above: one value per line group (ex_wrap_a), every depth step on ONE line
+   (ex_wrap_full: sniffed count 3 = number of curves, outside rewrap_rel 3, inside rewrap_rel_le 3), and the latter
+   re-spaced with tabs and runs of blanks *)
+Definition ex_wrap_full : list (list N) := [nl "1.0 2.0 3.0"; nl "4.0 5.0 6.0"].
+Definition ex_wrap_full_sp : list (list N) :=
+  [s2l "  1.0" ++ [9] ++ s2l "2.0    3.0 " ++ [10]; s2l "4.0  5.0" ++ [9; 9] ++ s2l "6.0" ++ [13; 10]].
+
+Example C09_ex_full_outside_old :
+  fst (inspect_twice DSpace ex_wrap_full default_subs) = Some 3%nat /\ ~ rewrap_rel 3 DSpace ex_wrap_a ex_wrap_full.
+Proof.
+  split; [vm_compute; reflexivity|]. intros (_ & _ & _ & H). vm_compute in H. apply (Nat.lt_irrefl 3). exact H.
+Qed.
+
+Example C09_ex_rewrap_rel_le : rewrap_rel_le 3 DSpace ex_wrap_a ex_wrap_full.
+Proof.
+  split; [|split].
+  - intros raw subs Hin. apply (clean_lines_subs (ex_wrap_a ++ ex_wrap_full)); [vm_compute; reflexivity|exact Hin].
+  - vm_compute. reflexivity.
+  - vm_compute. split; [exact I|]. repeat constructor.
+Qed.
+
+Ltac file_tac := intros ps H; vm_compute in H; injection H as <-; vm_compute; repeat split; repeat constructor.
+
+Lemma ex_wrap_step : pres_step_ext ex_normal (ex_wrap_text ex_wrap_a) (ex_wrap_text ex_wrap_full).
+Proof.
+  apply (ps_rewrap ex_normal 3 DSpace _ _ [] [] (ex_wrap_hdr ++ [(nl "~ASCII", ex_wrap_a)])
+                   (ex_wrap_hdr ++ [(nl "~ASCII", ex_wrap_full)])).
+  - vm_compute. reflexivity.
+  - vm_compute. reflexivity.
+  - reflexivity.
+  - reflexivity.
+  - repeat constructor.
+  - repeat constructor.
+  - repeat (apply Forall2_cons || apply Forall2_nil); unfold rewrap_block_le, rel_block, rel_view, block_view;
+      (split; [reflexivity|]).
+    + match goal with |- match ?t with _ => _ end => let r := eval vm_compute in t in change t with r end; cbv iota.
+      reflexivity.
+    + match goal with |- match ?t with _ => _ end => let r := eval vm_compute in t in change t with r end; cbv iota.
+      reflexivity.
+    + match goal with |- match ?t with _ => _ end => let r := eval vm_compute in t in change t with r end; cbv iota.
+      right. exact C09_ex_rewrap_rel_le.
+  - file_tac.
+Qed.
+
+Lemma ex_plain : forall x, In x (ex_wrap_full ++ ex_wrap_full_sp) -> plain_line x.
+Proof.
+  intros x Hin. assert (C : forallb clean_line (ex_wrap_full ++ ex_wrap_full_sp) = true) by (vm_compute; reflexivity).
+  assert (B : forallb (fun x => negb (in_str 26 x) && negb (in_str 34 x) && negb (in_str 39 x) && negb (in_str ch_hash x))
+                      (ex_wrap_full ++ ex_wrap_full_sp) = true) by (vm_compute; reflexivity).
+  rewrite forallb_forall in B. specialize (B x Hin).
+  apply andb_true_iff in B as [B B4]. apply andb_true_iff in B as [B B3]. apply andb_true_iff in B as [B1 B2].
+  apply negb_true_iff in B1, B2, B3, B4. repeat split; try assumption.
+  intros subs. apply (clean_lines_subs _ C). exact Hin.
+Qed.
+
+Example C09_ex_respace_lines : respace_lines ex_wrap_full ex_wrap_full_sp.
+Proof.
+  repeat constructor; try (apply ex_plain; vm_compute; tauto); vm_compute; reflexivity.
+Qed.
+
+Lemma ex_respace_step : pres_step_ext ex_normal (ex_wrap_text ex_wrap_full) (ex_wrap_text ex_wrap_full_sp).
+Proof.
+  apply (ps_respace ex_normal _ _ [] [] (ex_wrap_hdr ++ [(nl "~ASCII", ex_wrap_full)])
+                    (ex_wrap_hdr ++ [(nl "~ASCII", ex_wrap_full_sp)])).
+  - vm_compute. reflexivity.
+  - vm_compute. reflexivity.
+  - reflexivity.
+  - reflexivity.
+  - repeat constructor.
+  - repeat constructor.
+  - repeat (apply Forall2_cons || apply Forall2_nil); (split; [reflexivity|]);
+      match goal with |- match ?t with _ => _ end => let r := eval vm_compute in t in change t with r end; cbv iota;
+      try reflexivity.
+    exact C09_ex_respace_lines.
+  - file_tac.
+Qed.
+
+(* one chain through three generators of different kinds: re-wrap, then re-space, then CRLF line ends; the last
+   step is taken backwards *)
+Example C09_ex_compose_ext :
+  read ex_fhex ex_fstr ex_numeq ex_normal (ex_wrap_text ex_wrap_a) =
+  read ex_fhex ex_fstr ex_numeq ex_normal (crlf (ex_wrap_text ex_wrap_full_sp)).
+Proof.
+  apply C09_compose_read_ext.
+  apply (chain_fwd _ _ _ _ _ ex_wrap_step). apply (chain_fwd _ _ _ _ _ ex_respace_step).
+  eapply chain_bwd; [|apply chain_nil]. apply ps_base, ps_ws. apply lines_keep_crlf_streq.
+Qed.
+
+Example C09_ex_compose_ext_value :
+  match read ex_fhex ex_fstr ex_numeq ex_normal (crlf (ex_wrap_text ex_wrap_full_sp)) with
+  | ROk l => l_data l = [ [CNum (s2l "1.0"); CNum (s2l "4.0")]; [CNum (s2l "2.0"); CNum (s2l "5.0")];
+                          [CNum (s2l "3.0"); CNum (s2l "6.0")] ]
+  | RErr _ => False
+  end.
+Proof. vm_compute. reflexivity. Qed.
+
+(* header lines re-padded between the fields: same items, through C04 *)
+Example C09_ex_header_padding :
+  hline_alike KWell (nl " STRT.M 1.0 : start") (s2l "STRT  .M" ++ [9] ++ s2l "  1.0:start  " ++ [10]) /\
+  hline_alike KCurves (nl " DEPT.M : depth") (nl "DEPT   .M      :      depth").
+Proof.
+  split.
+  - apply (header_padding_alike KWell _ _ [] (s2l " ") (s2l " ") (s2l " ") (s2l "  ") ([9] ++ s2l "  ") [] []
+                                (s2l "STRT") (s2l "M") (s2l "1.0") (s2l "start"));
+      try (vm_compute; reflexivity); vm_compute; discriminate.
+  - apply (header_padding_alike KCurves _ _ [] [] (s2l " ") (s2l " ") (s2l "   ") [] (s2l "      ") (s2l "      ")
+                                (s2l "DEPT") (s2l "M") [] (s2l "depth"));
+      try (vm_compute; reflexivity); vm_compute; discriminate.
+Qed.
+
+Example C09_ex_header_padding_section :
+  forall v c ig,
+  parse_section v (nl "~Well") c ig [ch_hash] [nl " STRT.M 1.0 : start"; nl " NULL. -999.25 : null"] =
+  parse_section v (nl "~Well") c ig [ch_hash]
+    [s2l "STRT  .M" ++ [9] ++ s2l "  1.0:start  " ++ [10]; nl ""; nl " NULL. -999.25 : null   "].
+Proof.
+  intros v c ig. unfold parse_section.
+  replace (kind_of_title (strip (nl "~Well"))) with KWell by (vm_compute; reflexivity).
+  match goal with |- parse_body ?v ?k ?c ?ig ?cc ?tr _ ?acc = _ =>
+    transitivity (parse_body v k c ig cc tr
+                    [s2l "STRT  .M" ++ [9] ++ s2l "  1.0:start  " ++ [10]; nl " NULL. -999.25 : null   "] acc) end.
+  - apply parse_body_hlines. constructor; [exact (proj1 C09_ex_header_padding)|].
+    constructor; [left; vm_compute; reflexivity|constructor].
+  - symmetry. apply C09_skipped_header. ins_tac.
+Qed.
+
+Print Assumptions C09_rewrap_width_le.
+Print Assumptions C09_rewrap_le_weaken.
+Print Assumptions C09_rewrap_read_le.
+Print Assumptions C09_lines_alike_data.
+Print Assumptions C09_alike_of_equiv.
+Print Assumptions C09_alike_of_streq.
+Print Assumptions C09_respace_line.
+Print Assumptions C09_respace_data.
+Print Assumptions C09_redelimit_comma_unique.
+Print Assumptions C09_redelimit_read.
+Print Assumptions C09_respace_block_alike.
+Print Assumptions C09_header_padding.
+Print Assumptions C09_header_padding_section.
+Print Assumptions C09_header_padding_alike.
+Print Assumptions C09_step_read_ext.
+Print Assumptions C09_compose_read_ext.
+Print Assumptions C09_compose_read_ext_list.
+(* ==== END block (audit D5) ==== *)
